@@ -52,6 +52,12 @@ ASSUMPTIONS = [
     "related histories: an operation whose candidate tolerance the harness does not predict (documents with "
     "region-wise areas, YAML texts) is placed after a first writer whose candidate is predicted",
     "BDD node ids are renamed by the structure of the node (variable, canonical names of the children)",
+    "a diagram store of more than 600 nodes is not handed to vm_compute (cost): the C07 model is then run from the "
+    "empty store and the semantic part of c07_check decides (statuses, the set of user assignments observed to extend "
+    "against the set the theorem predicts; C20_memory_independent); every SAT probe over <= 10 variables observes "
+    "that projection (PySAT, a solver of the harness' own) and it is part of the digest",
+    "pattern families (same index pattern, other line coordinates) on grids of more than 20 cells / hard modules "
+    "of more than 8 rectangles are compared by digest only (stream exact-large)",
 ]
 
 WORKER_TIMEOUT = 600
@@ -648,7 +654,7 @@ def admissible(p, h):
 # --------------------------------------------------------------------------
 REL_KINDS = ["die-grid", "die", "alloc", "stog", "netlist", "sat", "die-grid", "die", "legal", "alloc", "strop",
              "netlist", "stog", "sat", "die-grid", "defaults", "die", "netlist-simple", "die-grid-large",
-             "netlist-long"]
+             "netlist-long", "die-pattern-64", "alloc-pattern", "stog-pattern", "die-pattern"]
 
 
 # near-duplicates of a die are probed only while the grid of cut coordinates stays small: the cost of evaluating the
@@ -704,6 +710,14 @@ def gen_related_group(rng, kind):
         probes = [fam[0]] + rng.sample(fam[1:], min(3, len(fam) - 1))
         chosen = list(fam)
         chosen += [copy_of(m) for m in probes if rng.random() < 0.5]              # executed twice
+    elif "-pattern" in kind:
+        # ONE index pattern (occupancy matrix, regions / cells / rectangles by line numbers) over other coordinates
+        base = pow2(rng.choice([-6, -3, 0, 0, 0, 2, 5, 9]))
+        shape = rng.choice([sh for sh in rel.PATTERN_SHAPES if sh[0] * sh[1] >= 64]) if kind.endswith("-64") else None
+        fam = [strip(m) for m in rel.pattern_family(rng, base, kind.split("-")[0], shape)]
+        lead = fam[0]
+        probes = rng.sample(fam, min(4, len(fam)))
+        chosen = list(fam) + [copy_of(m) for m in probes if rng.random() < 0.3]
     else:
         pk = {"netlist-simple": "netlist", "netlist-long": "netlist"}.get(kind, kind)
         p, base = gen_probe(rng, kind=pk)
@@ -752,6 +766,44 @@ def gen_related_group(rng, kind):
 
 def copy_of(d):
     return copy.deepcopy(d)
+
+
+# --------------------------------------------------------------------------
+# the SIZE of the process-wide diagram store: a history that leaves 10^4 .. 2^21 nodes behind
+# --------------------------------------------------------------------------
+def gen_sat_ext_probe(rng):
+    """a fresh manager posting one to three NON-CLAUSE inequalities (their diagrams go through the store); the
+    observation includes the projection of the CNF on the registered variables"""
+    nv = rng.choice([3, 4, 5, 6])
+    names = c07.NAMES[:nv]
+    posts = [{"k": "newvar", "v": v} for v in names]
+    for _ in range(rng.choice([1, 1, 2, 3])):
+        vs = rng.sample(names, rng.randrange(3, nv + 1))
+        cs = [rng.choice([1, 2, 2, 3, 4, 5]) for _ in vs]
+        if sum(cs) <= max(cs) + 1:
+            cs = [2] * len(vs)
+        posts.append({"k": "ineq", "lt": [[v, rng.random() < 0.75, c] for v, c in zip(vs, cs)], "rt": [],
+                      "b": rng.randint(max(cs) + 1, sum(cs) - 1), "op": "GE", "decomp": rng.random() < 0.3,
+                      "via": "ctor"})
+    if rng.random() < 0.4:
+        posts.append(c07.gen_post(rng, names))
+    return {"op": {"k": "sat", "posts": posts, "solve": rng.random() < 0.5}, "kind": "sat",
+            "stream": "logic", "variant": None, "dims": None, "note": "posts/ext", "cand": []}
+
+
+def gen_bigstore_group(rng, nodes):
+    """history: (now and then a few small encodings, then) `nodes` diagram nodes of unrelated inequalities; probes:
+    fresh managers posting non-clause inequalities, and two operations of other kinds"""
+    hist = []
+    for _ in range(rng.choice([0, 0, 1, 2])):
+        hist.append(strip(gen_sat(rng)[0]))
+    hist.append(strip({"op": {"k": "satgrow", "nodes": int(nodes), "pyseed": rng.randrange(1 << 30), "tag": "g"},
+                       "kind": "satgrow", "stream": "logic", "dims": None, "cand": [], "note": f"bigstore:{nodes}"}))
+    probes = [gen_sat_ext_probe(rng) for _ in range(3)]
+    probes.append(gen_sat(rng)[0])
+    for k in ("strop", "defaults"):
+        probes.append(gen_probe(rng, kind=k)[0])
+    return [{"history": copy_of(hist), "probe": strip(p)} for p in probes]
 
 
 # --------------------------------------------------------------------------
@@ -838,7 +890,10 @@ def run_batch(cases, par=8):
              "probes": [wj(c["probe"]["op"]) for c in groups[hk]["cases"]]} for hk in order]
     alone_jobs = [{"id": f"alone{i}", "history": [], "probes": [wj(p) for p in probes[i:i + 40]]}
                   for i in range(0, len(probes), 40)]
-    alljobs = alone_jobs + jobs
+    # histories that grow the diagram store take 20-40 s: each leads a batch of its own worker
+    heavy = [j for j in jobs if any(h.get("k") == "satgrow" and h.get("nodes", 0) > 200000 for h in j["history"])]
+    jobs = heavy + [j for j in jobs if j not in heavy]
+    alljobs = (jobs[:len(heavy)] + alone_jobs + jobs[len(heavy):]) if heavy else alone_jobs + jobs
     nb = max(1, min(par, len(alljobs)))
     batches = [alljobs[i::nb] for i in range(nb)]
     outs = call_workers_parallel(batches, fork=True, par=par)
@@ -982,6 +1037,20 @@ def sat_check(case, raw):
         return "false"
     obs = {"norms": raw["norms"], "newmem": raw["newmem"], "clauses": raw["clauses"], "aux": raw["aux"],
            "codified": raw["codified"], "vtable": raw["vtable"], "status": raw["status"], "mem0": raw["mem0"]}
+    if "ext" in raw:
+        obs["extendable"], obs["users"] = raw["ext"], raw["users"]
+    import re as _re
+    ids = [int(i) for i in raw["codified"]] + [int(x) for n in raw["newmem"] for x in n[1:3]] + \
+        [int(m.group(1)) for c in raw["clauses"] for l in c for m in [_re.fullmatch(r"robdd_(\d+)", l[0])] if m]
+    if raw.get("big") or max(ids + [0]) > 2 * c20w.BIG_STORE:
+        # (node ids far beyond the reported store only appear on a tree whose store was emptied behind the manager's
+        # back; a nat literal of that size must not reach Coq)
+        # a store of 10^4 .. 10^6 nodes is not handed to vm_compute: the model is run from the EMPTY store and only the
+        # semantic part of c07_check is used - the posts accepted / refused and the set of user assignments that extend
+        # (which by C07_post_exact does not depend on the store the posts started from)
+        if "ext" not in raw:
+            return "true"
+        obs.update(newmem=[], clauses=[], aux=0, codified=[], vtable=[], mem0=[])
     return c07.to_coq({"posts": posts}, obs)
 
 
@@ -1245,7 +1314,7 @@ def run(ctx, out, replay=None):
     quick = ctx.quick()
     _t("start")
     ngroups = 45 if quick else 620
-    nrelated = 36 if quick else 400
+    nrelated = 40 if quick else 432
     out.rule = ("(history, probe) pairs: probe = netlist load + verdict / orthogon recognition of a hard module / die "
                 "decomposition (with fixed rectangles of a netlist) / allocation + refine, griddify, uniform depth / "
                 "SAT posting sequence / legaliser Model construction / Strop / objects built from default arguments; "
@@ -1259,7 +1328,13 @@ def run(ctx, out, replay=None):
                 "complement), transposed / mirrored / rescaled by 2, the same rectangles through another class, the "
                 "same document as text or with integers - interleaved with 0-3 unrelated operations; the probe and "
                 "up to three of its near-duplicates are each executed at the end of that history. "
-                "non-trivial = non-empty history; distinct by (order-sensitive) hash")
+                "SAME PATTERN / OTHER COORDINATES (die-pattern, die-pattern-64, alloc-pattern, stog-pattern): one "
+                "index pattern (occupancy matrix, regions / cells / rectangles by line numbers) on a grid of 16..100 "
+                "cells over line coordinates rescaled non-uniformly, with one very wide column / tall row, "
+                "transposed, reversed, one line moved, doubled. BIG STORE: a history operation that grows the "
+                "diagram store by 400 / 3*10^4 / 2^20+4096 nodes (thorough: ten sizes up to 2^21), then three fresh "
+                "managers posting non-clause inequalities, a random posting sequence, a Strop and a default-argument "
+                "probe. non-trivial = non-empty history; distinct by (order-sensitive) hash")
     cases = []
     if replay and "case" in replay:
         cases.append(fr.unjson(replay["case"]))
@@ -1267,6 +1342,15 @@ def run(ctx, out, replay=None):
     ncorpus = len(cases)
     for _ in range(ngroups):
         cases += gen_group(ctx.rng, ctx.rng.choice([3, 4, 5]))
+    # the size of the process-wide diagram store (a generator of its own: the groups above do not depend on it)
+    import random
+    brng = random.Random(ctx.rng.randrange(1 << 30))
+    nbig = 0
+    for nodes in ([400, 30000, (1 << 20) + 4096] if quick else
+                  [200, 400, 1500, 5000, 30000, 70000, 140000, 10 ** 6 + 4096, (1 << 20) + 4096, (1 << 21) + 4096]):
+        g = gen_bigstore_group(brng, nodes)
+        nbig += len(g)
+        cases += g
     nrel = 0
     kinds = [REL_KINDS[i % len(REL_KINDS)] for i in range(nrelated)]
     # process-wide state the checked tree has and the pinned tree had not (static audit; informative): more
@@ -1316,6 +1400,9 @@ def run(ctx, out, replay=None):
         1 for (c, _), v in zip(rob, vals)
         if v is False and _CACHE[case_key(c)]["alone"]["digest"] != _CACHE[case_key(c)]["after"]["digest"])
     stats["related_pairs"] = nrel
+    stats["bigstore_pairs"] = nbig
+    stats["max_store_before_probe"] = max([m for c in cases for m in (_CACHE.get(case_key(c), {}).get("trace_mem") or [])
+                                           if m is not None] or [0])
     out.extra["c20_stats"] = stats
     _t("robust count")
     okc = lambda cs: [c for c in cs if "crash" not in _CACHE.get(case_key(c), {})]
